@@ -39,11 +39,15 @@ func (c05) Gen(dt *drv.T, c *Ctx) any {
 	for i := 0; i < extra; i++ {
 		cs.Prog.Body = append(cs.Prog.Body, &Stmt{Op: "if", Cond: genCond(dt), Body: []*Stmt{genSig(dt, pc.SigKinds)}})
 	}
-	if chance(dt, "namesakes", 15) {
+	if chance(dt, "namesakes", 22) {
 		// two failure sites at different lines of one closure of a helper that is named like a library internal
 		kind, a, b := "panicString", 4, 10
-		if drv.Bool().Draw(dt, "namesake2") {
+		switch pick(dt, "namesake2", 0, 1, 2, 2) {
+		case 1:
 			kind, a, b = "panicError", 5, 11
+		case 2:
+			// two Fatalf lines of one assertion helper that calls t.Helper()
+			kind, a, b = "Fatalf", 3, 9
 		}
 		cs.Prog.Body = append(cs.Prog.Body,
 			&Stmt{Op: "if", Cond: genCond(dt), Body: []*Stmt{{Op: "sig", Kind: kind, Site: a}}},
